@@ -996,6 +996,19 @@ def judge_gen(case, obs, spec):
     return True, None, None
 
 
+def equiv(case, obs, model):
+    """urlsplit also validates the text between '[' and ']' as an IP literal (ipaddress module); that check
+    is not modelled: a ValueError there is accepted when the model sees a bracketed host"""
+    try:
+        if case['kind'] == 'dec':
+            return obs == [[1, 4], []] and model[0][0] == 0 and '[' in model[0][2] and ']' in model[0][2]
+        if case['kind'] == 'gen':
+            return obs[:2] == model[:2] and obs[2] == [1] and model[2][0] == 0 and '[' in model[2][2] and ']' in model[2][2]
+    except Exception:
+        return False
+    return False
+
+
 def spec_holds(case, obs, spec):
     if case['kind'] != 'gen':
         return None
